@@ -3,7 +3,7 @@ import re
 from runner import Stream
 import vlib, gens
 
-PROP_MODULES = ["Vlsp.Props.C02", "Vlsp.Props.C02Gha", "Vlsp.Props.C02Go"]
+PROP_MODULES = ["Vlsp.Props.C02", "Vlsp.Props.C02Gha", "Vlsp.Props.C02Go", "Vlsp.Props.C02Pypi"]
 EXTRA_SCAN = ["Vlsp/Spec/Ranges.lean"]
 RULE = ("(a) semver parse/Ord lattice; (b) per ecosystem: specs from the range grammar (all operators, 1-3 component "
         "operands, wildcards, hyphen, AND/OR, layout) + junk stream, against the version lattice (components {0,1,2,10}, "
@@ -121,4 +121,41 @@ def streams(ctx):
             return der
         out.append(Stream(f"match-{eco}", cases, nontrivial=lambda c, o: o in ("T", "F", "latest", "outdated", "newer") and c.get("tag") is not None,
                           derive=derive))
+    # (z) the PyPI matcher vs its Lean model, the PEP 440 library's answers (pep440_rs, the real one) supplied as the model's parameter
+    PV = ["1.0", "1.0.0", "2.28.1", "2.0.0rc1", "1.0.post1", "1.0.dev0", "1!2.0", "2.0", "3", "0.9", "1.0+local", "junk", "", "1.0.0.0", "v1.0", "1.0a1"]
+    PS = ["", ">=1.0", ">=1.0,<2", "==1.0.*", "~=1.4.2", "!=1.5", "<2.0", ">1.0", "<=2", "==2.0", "===1.0", ">=1.0, <2.0", ">= 1.0", "1.0", ",", ">=junk", "=1.0", "~=1", ">=2.0,!=2.0.1,<3",
+          "  >=1.0  ", "==1.0+local", "<1.0a1", ">=1.0;", ">"]
+    pc = []
+    for _ in range(600 if tier == "quick" else 30000):
+        sp = rng.choice(PS) if rng.chance(3, 4) else rng.choice([">=", "<", "==", "~=", "!=", ""]) + rng.choice(PV) + rng.choice(["", ",<" + rng.choice(PV), " "])
+        lat_ = rng.choice(PV)
+        vs = [rng.choice(PV) for _ in range(rng.below(4))]
+        pc.append({"req": vlib.line("match.cmp", "pypi", sp, lat_), "kind": "cmp", "sp": sp, "latest": lat_, "tag": ("pypi-cmp", sp, lat_)})
+        pc.append({"req": vlib.line("match.exists", "pypi", sp, *vs), "kind": "exists", "sp": sp, "vs": vs, "tag": ("pypi-exists", sp, tuple(vs))})
+
+    def derive_p(cs, impl):
+        bases = vlib.run_model([vlib.line("pypi.base", c["sp"]) for c in cs])
+        q = []
+        for c, bh in zip(cs, bases):
+            if c["kind"] == "cmp":
+                q += [vlib.line("pep440", c["sp"], c["latest"]), vlib.line("pep440.le", vlib.unhx(bh), c["latest"])]
+            else:
+                q += [vlib.line("pep440", c["sp"], v) for v in c["vs"]] + [vlib.line("pep440", c["sp"], "1.0")]
+        ans = vlib.run_impl(q)
+        der, k = [], 0
+        for i, (c, o) in enumerate(zip(cs, impl)):
+            if c["kind"] == "cmp":
+                a, le = ans[k], ans[k + 1]; k += 2
+                l = vlib.line("pypi.cmp", c["sp"], c["latest"], a[0], a[1], a[2], le[0], le[2])
+            else:
+                n = len(c["vs"])
+                aa = ans[k:k + n + 1]; k += n + 1
+                f = []
+                for v, a in zip(c["vs"], aa):
+                    f += [v, a[1], a[2]]
+                l = vlib.line("pypi.exists", c["sp"], aa[-1][0], *f)
+            der.append({"req": l, "index": i, "history": [c["req"]],
+                        "check": (lambda out, o=o, c=c: None if out == o else ("model", f"PyPI matcher {c['kind']} {c['sp']!r}: implementation {o}, model {out}"))})
+        return der
+    out.append(Stream("pypi-matcher-model", pc, nontrivial=lambda c, o: o in ("T", "latest", "outdated", "newer"), derive=derive_p, model_eq=lambda i, m: True, nt_on_impl=True, shrinkable=False))
     return out
